@@ -13,7 +13,8 @@ EXPLANATION = (
     "for partial writers); R1 in copy_half the slice written is buf[..n] for the n returned by the read into the same buffer, the "
     "zero-length test, the byte counter and the slice bound use the same value; O1 no static/thread-local byte container exists and the "
     "relay buffer is allocated per copy_half call. Does not decide equality of delivered streams over all segmentations."
-    " WIRE the sets of socket-operation layouts (field widths, NUL-terminated / length-prefixed strings, per successful path) written by the SOCKS4 request, SOCKS4 reply and SOCKS5 reply encoders equal those read by the project's own decoders; BUF every store into GlobalState.io_params is dominated by the non-zero edge of a test of buffer_size.")
+    " WIRE the sets of socket-operation layouts (field widths, NUL-terminated / length-prefixed strings, per successful path) written by the SOCKS4 request, SOCKS4 reply and SOCKS5 reply encoders equal those read by the project's own decoders; BUF every store into GlobalState.io_params is dominated by the non-zero edge of a test of buffer_size."
+    " DELIM: a delimiter-terminated handshake field is accepted only behind the edge on which the delimiter was seen (C12's S2); WIRE also follows fields assembled in a buffer (REQ5 negotiation+request compared exactly).")
 RULE_TEXT = "instances = write sites, writer functions, unwrap sites, relay arms, statics; non-trivial = those needing a dataflow/dominance argument"
 TRUSTED = ["tokio BufReader/BufWriter/read/write_all contracts", "kernel splice semantics", "TLS record handling in rustls"]
 NOT_DECIDED = ["equality of the delivered stream over all segmentations and payloads", "TLS record handling", "kernel splice semantics"]
